@@ -15,14 +15,14 @@ def _cfgset(names):
 
 
 def plan_value(prop, srcs, tier, parts=(1, 2, 3, 4), san=True, landmarks=configs.LANDMARKS, extra=(),
-               libs=(), san_parts=None, clang_all=False, plain_variant='plain', max_cfgs=None, incdirs=(), extra_variants=()):
+               libs=(), san_parts=None, clang_all=False, plain_variant='plain', max_cfgs=None, incdirs=(), extra_variants=(), ladder_files=()):
     """Standard plan for value properties: ladder cover configs x parts with g++ C++11 plain,
     clang++ C++20 on three configs, ASan+UBSan on four configs (quick) / all (thorough)."""
     if tier == 'thorough':
-        cfgs, lad = thorough_configs(prop)
-        qcfgs = {configs.closure(c) for c in quick_configs(prop, landmarks)[0]}
+        cfgs, lad = thorough_configs(prop, extra_files=ladder_files)
+        qcfgs = {configs.closure(c) for c in quick_configs(prop, landmarks, extra_files=ladder_files)[0]}
     else:
-        cfgs, lad = quick_configs(prop, landmarks)
+        cfgs, lad = quick_configs(prop, landmarks, extra_files=ladder_files)
         qcfgs = {configs.closure(c) for c in cfgs}
     if isinstance(srcs, str):
         srcs = [(srcs, parts)]
@@ -61,7 +61,7 @@ def plan_value(prop, srcs, tier, parts=(1, 2, 3, 4), san=True, landmarks=configs
             have.add(k)
             jobs.append(Job(src, c, comp, std, variant, p, extra=extra, libs=libs, incdirs=incdirs))
     planned = sorted({(j.cfg, j.compiler, j.std) for j in jobs if j.variant == plain_variant}, key=lambda t: (configs.name(t[0]), t[1], t[2]))
-    extra_builds, bd = build_dimension(prop, cfgs, planned)
+    extra_builds, bd = build_dimension(prop, cfgs, planned, extra_files=ladder_files)
     names = {configs.name(c): c for c in cfgs}
     lm = [n for n in BUILD_DIM_CFGS if n in names] or [configs.name(c) for c in cfgs[:3]]
     # unoptimised (debug) and -O3 builds of the landmark configurations: _mm_undefined_*, odr-uses, evaluation order and
@@ -277,8 +277,16 @@ def c14(tier, seed):
                        assumptions=COMMON_ASSUME, extra_variants=[('o0', ('X86', 'none')), ('o3', ('X86',))])
 
 
+def vector_headers():
+    """the per-type vector headers: the vector Denominators (C15) and the scalar-vs-lane comparison (C16) run the code in
+    them (countl_zero, bit_width, mulhi, shifts, every function with a scalar twin) although the properties anchor other
+    files, so their preprocessor rungs belong to those properties' configuration cover too"""
+    d = os.path.join(build.REPO, 'include/avel/impl/vectors')
+    return sorted('include/avel/impl/vectors/' + f for f in os.listdir(d) if f.startswith('Vec') and f.endswith('.hpp') and f != 'Vectors.hpp')
+
+
 def c15(tier, seed):
-    return value_check('C15', 'c15_vdenom.cpp', tier, seed,
+    return value_check('C15', 'c15_vdenom.cpp', tier, seed, ladder_files=vector_headers(),
                        rule='vectors of DIFFERENT divisors per lane (consecutive and random selections from the C14 divisor sets; 8-bit: all numerators, otherwise per-lane boundary numerator sets), '
                        'div, /, %, /=, %=, value(); broadcast constructor Denominator<V>(Denominator<T>(d)) for the C14 divisor set compared with the lane model; absence of a documented member is an api-missing event. '
                        'Constructing the scalar Denominator<int64_t>(-1) (C14 finding) is not used as a broadcast source on x86 builds.',
@@ -288,7 +296,7 @@ def c15(tier, seed):
 def c16(tier, seed):
     scal = ['none', 'X86', 'POPCNT', 'LZCNT', 'BMI', 'BMI2', 'X86+POPCNT+LZCNT+BMI+BMI2', 'SSE2', 'SSE2+X86+POPCNT+LZCNT+BMI+BMI2', 'SSE4_1', 'AVX2',
             'AVX2+X86+POPCNT+LZCNT+BMI+BMI2', 'F', 'F+VL+BW+DQ+CD', 'ALL']
-    return value_check('C16', [('c16_scalar_int.cpp', INT4), ('c16_scalar_flt.cpp', FLT2)], tier, seed, landmarks=scal,
+    return value_check('C16', [('c16_scalar_int.cpp', INT4), ('c16_scalar_flt.cpp', FLT2)], tier, seed, landmarks=scal, ladder_files=vector_headers(),
                        rule='differential monitor: for every scalar overload f and every vector type of that element type in the configuration, lane i of f(vector) must equal f(scalar) on the same input '
                        '(inputs as in C06/C07/C12/C13; documented-undefined inputs excluded; float results compared by value, NaN~NaN, sign-of-zero-only differences counted as advisory). '
                        'cmp_equal/.../cmp_greater_equal in both argument orders against __int128 comparison: all 8-bit pairs, 16-bit values x lattice, lattice^2 + random otherwise.',
